@@ -210,7 +210,8 @@ fn model_ops(bs: &[B], cfg: &Cfg, o: &Offs) -> Vec<Op> {
             B::VariableValue(t) => Op::u(GNU_VARIABLE_VALUE, o.unit + o.tgt(*t)),
             B::Convert(b) => Op::u(CONVERT, b.map(|b| o.base(b)).unwrap_or(0)),
             B::Reinterpret(b) => Op::u(REINTERPRET, b.map(|b| o.base(b)).unwrap_or(0)),
-            B::EntryValue(inner) => Op::blk(ENTRY_VALUE, &encode_all(&model_ops(inner, cfg, o), cfg)),
+            // nested branches are resolved on the nested block's own layout
+            B::EntryValue(inner) => Op::blk(ENTRY_VALUE, &model_program(inner, cfg, o).1),
             B::Reg(r) => Op::u(REGX, *r as u64),
             B::ImplicitValue(d) => Op::blk(IMPLICIT_VALUE, d),
             B::ImplicitPointer(t, x) => Op::us(IMPLICIT_POINTER, o.unit + o.tgt(*t), *x),
@@ -882,7 +883,7 @@ fn branch_sub(tier: Tier) -> Sub {
     Sub::new(
         "branches",
         nseq * ncfg,
-        &format!("every sequence of <= {} operations over a variable-length core (lit5, constu 200, consts -1, dup, pick 2, bregx 32 64, nop, plus_uconst 1) with one skip or bra inserted at every position and aimed at every operation index incl. the end and the next operation, plus every pair of two branches for sequences of <= 2; x version x format x address size; DIE host", maxk),
+        &format!("every sequence of <= {} operations over a variable-length core (lit5, constu 200, consts -1, dup, pick 2, bregx 32 64, nop, plus_uconst 1) with one skip or bra inserted at every position and aimed at every operation index incl. the end and the next operation, each also nested inside DW_OP_entry_value between two outer operations, plus every pair of two branches for sequences of <= 2; x version x format x address size; DIE host", maxk),
         move |ctx, i| {
             let cfg = cfgs[(i % ncfg) as usize];
             let seq = mcx::space::seq_decode(n, 0, maxk, i / ncfg);
@@ -896,6 +897,10 @@ fn branch_sub(tier: Tier) -> Sub {
                         let mut bs: Vec<B> = seq.iter().map(|&s| core[s].clone()).collect();
                         bs.insert(pos, if kind == 0 { B::Skip(target) } else { B::Bra(target) });
                         host_unit(ctx, &cfg, &bs, Host::Die, true);
+                        // the same branching sequence nested in DW_OP_entry_value, between outer
+                        // operations (targets are indices of the NESTED expression)
+                        let nested = vec![B::Constu(300), B::EntryValue(bs), B::Simple(NOP)];
+                        host_unit(ctx, &cfg, &nested, Host::Die, false);
                     }
                 }
             }
